@@ -293,6 +293,8 @@ def run_spec(spec):
     out["stats"] = E.stats
     if out["reach"] == 0 and out["result"] == "holds":
         out.update(result="inconclusive", why="vacuous")
+    if out["result"] == "holds":
+        U.validate_native(E, paths, LV2, conc, out, nmax=1)
     return out
 
 
